@@ -27,6 +27,7 @@ Init == TInit /\ input = <<>> /\ k = 0 /\ nadd = 0 /\ hist = <<[op |-> "new"]>>
 
 DoAdd == /\ nadd < MaxSyms
          /\ \E s \in Symbols, alt \in BOOLEAN :
+              /\ (s \in DOMAIN syms => syms[s] = TypeOf(s, alt))     \* (a symbol registered again under ANOTHER type: which one it then has is not stated)
               /\ Add(s, TypeOf(s, alt))
               /\ hist' = Append(hist, [op |-> "add", sym |-> s, type |-> TypeOf(s, alt)])
          /\ nadd' = nadd + 1 /\ UNCHANGED <<input, k>>
